@@ -77,6 +77,9 @@ type Shim struct {
 	TTL *bool
 	// FixedClient, if >= 0, attributes every call of this shim to that client id (for callers that drop the context)
 	FixedClient int
+	// AttributeDeletesTo, if >= 0, attributes Del/DelCurrent calls that carry no client id to that client
+	// (the compaction deletes use context.Background())
+	AttributeDeletesTo int
 	// OnGetResult observes the result of every Get
 	OnGetResult func(client int, key, val []byte, err error)
 
@@ -94,13 +97,15 @@ var shimCoder = coder.NewNormalCoder()
 
 // NewShim wraps inner; buffer should be true for memkv
 func NewShim(inner storage.KvStorage, buffer bool) *Shim {
-	return &Shim{Inner: inner, BufferBatches: buffer, FixedClient: -1}
+	return &Shim{Inner: inner, BufferBatches: buffer, FixedClient: -1, AttributeDeletesTo: -1}
 }
 
 func (s *Shim) gate(ctx context.Context, point string, detail interface{}) {
 	if s.Gate != nil {
 		if s.FixedClient >= 0 {
 			ctx = ClientCtx(s.FixedClient)
+		} else if s.AttributeDeletesTo >= 0 && (point == "del" || point == "delcur") && ClientOf(ctx) < 0 {
+			ctx = ClientCtx(s.AttributeDeletesTo)
 		}
 		s.Gate(ctx, point, detail)
 	}
